@@ -576,21 +576,29 @@ fill_yly_ycw(bitint383_t *restrict cand, unsigned int y, const bitint447_t *dow)
 static void
 fill_yly_yd(
 	bitint383_t *restrict cand, unsigned int y,
-	const bitint383_t *doy, uint8_t wd_mask)
+	const bitint383_t *doy, bituint31_t mon, uint8_t wd_mask)
 {
 	int yd;
 
 	for (bitint_iter_t doyi = 0UL;
 	     (yd = bi383_next(&doyi, doy), doyi);) {
-		/* yd */
+		/* yd, negative ones count from the end of the year */
+		const int pyd = yd > 0 ? yd : yd + 1 + ((y % 4U) ? 365 : 366);
 		struct md_s md;
 
-		if (wd_mask >> 1U &&
-		    !((wd_mask >> yd_get_wday(y, yd)) & 0b1U)) {
+		if (pyd <= 0) {
+			/* no such day */
+			continue;
+		} else if (wd_mask >> 1U &&
+		    !((wd_mask >> yd_get_wday(y, pyd)) & 0b1U)) {
 			/* weekday is masked out */
 			continue;
 		} else if (!(md = yd_to_md(y, yd)).m || md.m > 12U) {
 			/* something's wrong again */
+			continue;
+		} else if (bui31_has_bits_p(mon) &&
+			   !bui31_has_bit_p(mon, md.m)) {
+			/* month is masked out */
 			continue;
 		}
 		/* otherwise it's looking good */
@@ -1117,7 +1125,7 @@ rrul_fill_yly(echs_instant_t *restrict tgt, size_t nti, rrulsp_t rr)
 
 		/* extend by yd */
 		if (srcsca == SCALE_GREGORIAN) {
-			fill_yly_yd(cand, y, &rr->doy, wd_mask);
+			fill_yly_yd(cand, y, &rr->doy, rr->mon, wd_mask);
 		}
 
 		/* extend by ymd */
@@ -1133,6 +1141,9 @@ rrul_fill_yly(echs_instant_t *restrict tgt, size_t nti, rrulsp_t rr)
 			;
 		} else if (!nm) {
 			fill_yly_ymd_all_m(cand, srcsca, y, d, nd, wd_mask);
+		} else if (!nd && bi383_has_bits_p(&rr->doy)) {
+			/* the months merely limit the year days */
+			;
 		} else if (!nd) {
 			fill_yly_ymd_all_d(cand, srcsca, y, m, nm, wd_mask);
 		} else {
